@@ -151,6 +151,50 @@ def touching(recs) -> bool:
     return any(b['pos'] <= a['pos'] + len(a['ref']) for a, b in zip(recs, recs[1:]))
 
 
+def distal_codon_background(rng, d: dict) -> bool:
+    """One targeton starting (or ending) exactly on an exon boundary that splits a codon, with an snv region on the boundary, and a
+    synonymous background substitution on the part of that codon that lies in the neighbouring exon - outside every targeton, but inside
+    the context the codon is completed from."""
+    exons = gen.exons_of(d)
+    if len(exons) < 2:
+        return False
+    U = d['ref'].upper()
+    cands = []
+    for ex in exons:
+        for edge, side in ((ex[0], 'start'), (ex[1], 'end')):
+            tc = gen.true_codon_positions(d, edge)
+            if not tc or None in tc:
+                continue
+            distal = [q for q in tc if gen.exon_at(exons, q) != ex]
+            if distal:
+                cands.append((ex, edge, side, tc, distal))
+    rng.shuffle(cands)
+    for ex, edge, side, tc, distal in cands:
+        ln = rng.randint(0, min(8, ex[1] - ex[0]))
+        if side == 'start':
+            a, b = edge, edge + ln
+            rs_, re_ = a, min(len(U) - 2, b + rng.randint(0, 6))
+        else:
+            a, b = edge - ln, edge
+            rs_, re_ = max(2, a - rng.randint(0, 6)), b
+        if gen.region_class(exons, a, b) != 'cds' or re_ - rs_ < 2:
+            continue
+        if any(gen.exon_at(exons, q) for q in list(range(rs_, a)) + list(range(b + 1, re_ + 1)) if gen.exon_at(exons, q) != ex):
+            continue
+        for q in rng.sample(distal, len(distal)):
+            alts = [x for x in 'ACGT' if x != U[q - 1] and gen.is_syn_bg_snv(d, q, x)]
+            if not alts:
+                continue
+            d['targetons'] = [{'ref_start': rs_, 'ref_end': re_, 'r2_start': a, 'r2_end': b, 'ext': [0, 0], 'action': ['', 'snv', ''], 'sgrna': []}]
+            d['pam'] = [e for e in d.get('pam') or [] if rs_ <= e['pos'] <= re_ and e['pos'] not in tc]
+            d.pop('vcfs', None)
+            d.pop('mask', None)
+            keep = [v for v in d.get('bg') or [] if not (v['pos'] - 2 <= q <= v['pos'] + len(v['ref']) + 1) and not any(v['pos'] - 1 <= x <= v['pos'] + len(v['ref']) for x in tc)]
+            d['bg'] = sorted(keep + [{'pos': q, 'ref': U[q - 1], 'alts': [rng.choice(alts)], 'id': 'bgdistal', 'kind': 'snv'}], key=lambda r: r['pos'])
+            return True
+    return False
+
+
 def make_designs(ctx: Ctx, n: int, focus_over: dict | None = None):
     out = []
     tries = 0
@@ -164,6 +208,8 @@ def make_designs(ctx: Ctx, n: int, focus_over: dict | None = None):
         d = gen.gen_sge(ctx.rng, focus)
         if not d.get('bg'):
             continue
+        if tries % 6 == 0 and d.get('gtf') and distal_codon_background(ctx.rng, d):
+            ctx.count('designs_with_background_on_the_distal_part_of_a_split_codon')
         lifted = bg.lift_design(d)
         if lifted is None:
             continue
